@@ -27,11 +27,11 @@ KeySeq2(fam) == CASE fam = "ann" -> <<"k1", "k2">>
 KeySeq(fam) == SubSeq(KeySeq2(fam), 1, NK)
 Keys(fam) == SeqRange(KeySeq(fam))
 KVal(fam, i) == CASE fam = "ann" -> "v" \o ToString(i)
-                  [] fam = "env" -> "v" \o ToString(i)
+                  [] fam = "env" -> "v=" \o ToString(i) \o "="      \* values with "=" in them: a name ends at the FIRST "="
                   [] fam = "mnt" -> "/s/v" \o ToString(i) \o "|bind|ro"
                   [] fam = "dev" -> "c|1|" \o Num(i)
 OVal(fam)    == CASE fam = "ann" -> "o"
-                  [] fam = "env" -> "o"
+                  [] fam = "env" -> "o=x=="
                   [] fam = "mnt" -> "/s/o|bind|rw"
                   [] fam = "dev" -> "c|1|3"
 MapOps  == {"none", "set", "rm", "rmset"}
